@@ -185,6 +185,11 @@ func Switch(thorough bool, expired func() bool, level func(name string, complete
 			yield(ErrorMsg(et, PatU(2, int(et))&0xf, Payload(dl)))
 		}
 	}
+	// the failed request is echoed in full or cut by the switch wherever it likes: data beyond 64 bytes
+	yield(ErrorMsg(1, 2, Payload(65)))
+	yield(ErrorMsg(4, 8, Payload(200)))
+	yield(ErrorMsg(5, 1, Payload(1464)))
+	yield(wire.New("error_exp").Set("Xid", 5).Set("Code", 2308).Set("ExperimenterID", wire.ONFVendor).SetB("Data", Payload(120)))
 	for _, dl := range []int{0, 1, 64} {
 		yield(wire.New("error_exp").Set("Xid", 5).Set("Code", 2300+uint64(dl)%16).Set("ExperimenterID", wire.ONFVendor).SetB("Data", Payload(dl)))
 	}
